@@ -106,6 +106,119 @@ Example mm_nonvacuous_laws : ord_laws kv_cmp /\ kv_cmp (KB [1;2]) (KB [1;2;0]) =
 Proof. split; [exact kv_cmp_laws | vm_compute; split; reflexivity]. Qed.
 
 (* ------------------------------------------------------------------------------------------------
+   The two-level model (coq/Multimap/Subtree.v): the table as multimap_table.rs composes it out of TWO
+   B-trees -- the OUTER tree key |-> DynamicCollection (inline leaf image | subtree header) and, per
+   spilled key, the INNER tree BtreeMut<V,()> -- both instances of C04's proved B-tree model.  Names are
+   qualified (no Import) so that nothing below this block changes meaning. *)
+From RV Require Base.SortedMap Btree.Tree Btree.Mutator Btree.Shape Btree.ShapeRefP.
+From RV Require Multimap.Subtree Multimap.SubtreeP Multimap.SubtreeInst Multimap.SubtreeInstP.
+
+(* For every key/value type with lawful orders, every program of multimap operations, and -- independently for
+   the two levels -- every page size, size functions, fixed-width flags, valid separator function and in-place
+   oracle of C04's logical B-tree (Btree/Mutator.v), and every cfg (page size / value width) of the inline
+   decisions:
+   (1) the outputs of the two-level model and its abstraction tl_abs (the outer tree's in-order contents with
+       each collection expanded to its value list) equal the outputs and state of the sorted-map-of-sorted-sets
+       specification;
+   (2) state_wf: C04's TreeInv holds of the outer tree and of every inner tree stored in it, every inline
+       list is non-empty and strictly sorted (current and committed state);
+   (3) counts_exact: the count stored in every subtree header equals the number of values in that subtree and
+       num_values equals the number of pairs present (current and committed state).
+   Obtained by composing C04's insert_refines / delete_refines / read correctness (through the interface
+   tree_laws, proved for both instances in SubtreeP.mut_laws / shape_laws) with mm_program_refines. *)
+Theorem c09_two_level_refines :
+  forall (K V : Type) (kcmp : K -> K -> comparison) (vcmp : V -> V -> comparison),
+  ord_laws kcmp -> ord_laws vcmp ->
+  forall (oksize : K -> N) (ovsize : @Subtree.ocoll V (@Tree.btree V unit) -> N) (ofk ofv : bool) (ops_ : N)
+         (osep : K -> K -> K)
+         (oinplace : list (K * @Subtree.ocoll V (@Tree.btree V unit)) -> K -> @Subtree.ocoll V (@Tree.btree V unit) -> bool)
+         (iksize : V -> N) (ivsize : unit -> N) (ifk ifv : bool) (ips : N) (isep : V -> V -> V)
+         (iinplace : list (V * unit) -> V -> unit -> bool)
+         (vlen : V -> N) (c : cfg) (ops : list (op K V)),
+  Mutator.valid_sep kcmp osep -> Mutator.valid_sep vcmp isep ->
+  let outer := Subtree.mut_impl kcmp oksize ovsize ofk ofv ops_ osep oinplace in
+  let inner := Subtree.mut_impl vcmp iksize ivsize ifk ifv ips isep iinplace in
+  let r := Subtree.tl_run vcmp vlen outer inner c ops (Subtree.tl_empty outer) in
+  spec_run kcmp vcmp ops s_empty = (Subtree.tl_abs outer inner (fst r), snd r) /\
+  Subtree.state_wf vcmp outer (Tree.TreeInv kcmp) (Tree.TreeInv vcmp) (fst r) /\
+  Subtree.counts_exact outer inner (Subtree.tl_cur (fst r)) /\
+  Subtree.counts_exact outer inner (Subtree.tl_com (fst r)).
+Proof. exact (@SubtreeP.two_level_refines). Qed.
+
+(* The same with both levels being C04's SHAPE model (Btree/Shape.v: dirty flag and allocated length per
+   page; the in-place decisions are computed as btree_mutator.rs computes them) -- the trees the check
+   replays against redb.  SInv = TreeInv of the erased tree. *)
+Theorem c09_two_level_shape_refines :
+  forall (K V : Type) (kcmp : K -> K -> comparison) (vcmp : V -> V -> comparison),
+  ord_laws kcmp -> ord_laws vcmp ->
+  forall (oksize : K -> N) (ovsize : @Subtree.ocoll V (@Shape.sbtree V unit) -> N) (ofk ofv : bool) (ops_ : N)
+         (osep : K -> K -> K)
+         (iksize : V -> N) (ivsize : unit -> N) (ifk ifv : bool) (ips : N) (isep : V -> V -> V)
+         (vlen : V -> N) (c : cfg) (ops : list (op K V)),
+  Mutator.valid_sep kcmp osep -> Mutator.valid_sep vcmp isep ->
+  let outer := Subtree.shape_impl kcmp oksize ovsize ofk ofv ops_ osep in
+  let inner := Subtree.shape_impl vcmp iksize ivsize ifk ifv ips isep in
+  let r := Subtree.tl_run vcmp vlen outer inner c ops (Subtree.tl_empty outer) in
+  spec_run kcmp vcmp ops s_empty = (Subtree.tl_abs outer inner (fst r), snd r) /\
+  Subtree.state_wf vcmp outer (ShapeRefP.SInv kcmp) (ShapeRefP.SInv vcmp) (fst r) /\
+  Subtree.counts_exact outer inner (Subtree.tl_cur (fst r)) /\
+  Subtree.counts_exact outer inner (Subtree.tl_com (fst r)).
+Proof. exact (@SubtreeP.two_level_shape_refines). Qed.
+
+(* The instance the correspondence replays (SubtreeInst.v: kv keys and values, sizes of the table's types,
+   C15's separators behind a validity guard), with no premises left: for every page size, key/value type
+   selector and program. *)
+Theorem c09_two_level_refines_kv :
+  forall (ps : N) (kfixed : bool) (kmode : N) (vfixed : bool) (vmode : N) (ops : list (op kv kv)),
+  let r := SubtreeInst.kv_tl_run ps kfixed kmode vfixed vmode ops SubtreeInst.kv_tl_empty in
+  spec_run kv_cmp kv_cmp ops s_empty = (SubtreeInst.kv_tl_abs (fst r), snd r) /\
+  Subtree.state_wf kv_cmp (SubtreeInst.kv_outer ps kfixed kmode vfixed) (ShapeRefP.SInv kv_cmp) (ShapeRefP.SInv kv_cmp) (fst r) /\
+  Subtree.counts_exact (SubtreeInst.kv_outer ps kfixed kmode vfixed) (SubtreeInst.kv_inner ps vfixed vmode) (Subtree.tl_cur (fst r)) /\
+  Subtree.counts_exact (SubtreeInst.kv_outer ps kfixed kmode vfixed) (SubtreeInst.kv_inner ps vfixed vmode) (Subtree.tl_com (fst r)).
+Proof. exact SubtreeInstP.kv_two_level_refines. Qed.
+
+(* ---- non-vacuity: one key goes inline -> subtree with a LEAF root (too big to re-inline) -> two-level
+   subtree (BRANCH root) -> LEAF root again -> back inline -> removed.  Page size 64, u64 keys and values:
+   inline while 4 + 8n < 32 (n <= 3); an inner leaf holds 7 values (4 + 8*7 = 60 <= 64), the 8th splits it.
+   tl_rep = (is_subtree, stored count, root is a leaf, byte length of the inline / root leaf) -- the tuple
+   MultimapTable::verif_collection_info reports and the check compares. *)
+Definition ex2_ops : list (op kv kv) :=
+  List.map (fun n => OpInsert (KU 7) (KU (n * 10))) [1;2;3;4;5;6;7;8;9;10;11;12] ++ [OpCommit] ++
+  List.map (fun n => OpRemove (KU 7) (KU (n * 10)) false) [12;1;11;2;10;3;9;4;8;5;7;6] ++ [OpLen; OpAbort; OpLen; OpGet (KU 7) true 2 1].
+
+Definition ex2_at (i : nat) :=
+  let s := fst (SubtreeInst.kv_tl_run 64 true 0 true 0 (firstn i ex2_ops) SubtreeInst.kv_tl_empty) in
+  (SubtreeInst.kv_tl_rep 64 true 0 true 0 (KU 7) s, SubtreeInst.kv_sub_height (KU 7) s, SubtreeInst.kv_tl_check s).
+
+Example c09_nonvacuous_two_level :
+  ex2_at 3 = (Some (false, 3, true, 28), None, true) /\          (* inline, 3 values, 28 bytes *)
+  ex2_at 4 = (Some (true, 4, true, 36), Some 0%nat, true) /\     (* spilled: subtree, root is a leaf of 36 bytes *)
+  ex2_at 7 = (Some (true, 7, true, 60), Some 0%nat, true) /\
+  ex2_at 8 = (Some (true, 8, false, 0), Some 1%nat, true) /\     (* the leaf split: BRANCH root, height 1 *)
+  ex2_at 12 = (Some (true, 12, false, 0), Some 1%nat, true) /\
+  ex2_at 17 = (Some (true, 8, false, 0), Some 1%nat, true) /\    (* removals in the committed subtree (copy on write) *)
+  ex2_at 18 = (Some (true, 7, true, 60), Some 0%nat, true) /\    (* root collapsed to a LEAF, 60 >= 32: stays a subtree *)
+  ex2_at 21 = (Some (true, 4, true, 36), Some 0%nat, true) /\
+  ex2_at 22 = (Some (false, 3, true, 28), None, true) /\         (* 28 < 32: back inline *)
+  ex2_at 24 = (Some (false, 1, true, 12), None, true) /\
+  ex2_at 25 = (None, None, true) /\                               (* the key disappears with its last value *)
+  ex2_at 27 = (Some (true, 12, false, 0), Some 1%nat, true) /\   (* abort: the committed two-level subtree is back *)
+  skipn 25 (snd (SubtreeInst.kv_tl_run 64 true 0 true 0 ex2_ops SubtreeInst.kv_tl_empty)) =
+    [ONum 0; OUnit; ONum 12; OVals [KU 120; KU 110] [KU 10] 12] /\
+  snd (spec_run kv_cmp kv_cmp ex2_ops s_empty) = snd (SubtreeInst.kv_tl_run 64 true 0 true 0 ex2_ops SubtreeInst.kv_tl_empty).
+Proof. vm_compute. repeat split; reflexivity. Qed.
+
+(* the same history through C04's logical trees (the object of c09_two_level_refines; in-place oracle constantly
+   false, separator `left`): same outputs as the specification, and the final state abstracts to the spec's *)
+Example c09_nonvacuous_two_level_logical :
+  let outer := Subtree.mut_impl kv_cmp kv_len (fun _ : @Subtree.ocoll kv (@Tree.btree kv unit) => 33) true false 64
+                 (fun l _ => l) (fun _ _ _ => false) in
+  let inner := Subtree.mut_impl kv_cmp kv_len (fun _ : unit => 0) true true 64 (fun l _ => l) (fun _ _ _ => false) in
+  let r := Subtree.tl_run kv_cmp kv_len outer inner (SubtreeInst.kv_cfg 64 true) ex2_ops (Subtree.tl_empty outer) in
+  spec_run kv_cmp kv_cmp ex2_ops s_empty = (Subtree.tl_abs outer inner (fst r), snd r).
+Proof. vm_compute. reflexivity. Qed.
+
+(* ------------------------------------------------------------------------------------------------
    Tie to the code (Gen/Fns.v is regenerated from btree_base.rs / multimap_table.rs on every run by
    tools/gen_fns.py): the size of an inline value set and the inline-vs-subtree decisions of the model are
    equal to what is translated from the Rust sources. *)
